@@ -49,14 +49,14 @@ func zoneAligned(f *Fn, e ast.Expr, zoneProv string) (aligned, mentions bool) {
 		}
 		k := f.CallKey(call)
 		switch k {
-		case "strings.HasSuffix", "strings.Contains", "strings.Index", "strings.LastIndex", "strings.HasPrefix":
+		case "strings.HasSuffix", "strings.Contains", "strings.Index", "strings.LastIndex", "strings.HasPrefix", "strings.CutSuffix", "strings.CutPrefix", "strings.Cut":
 			arg := call.Args[1]
 			if f.Prov(arg) == zoneProv {
 				mentions = true // raw use of the zone as a pattern
 				return true
 			}
 			if be, ok := ast.Unparen(arg).(*ast.BinaryExpr); ok && be.Op == token.ADD {
-				if v, ok := f.ConstVal(be.X); ok && v == "\".\"" && f.Prov(be.Y) == zoneProv && k == "strings.HasSuffix" {
+				if v, ok := f.ConstVal(be.X); ok && v == "\".\"" && f.Prov(be.Y) == zoneProv && (k == "strings.HasSuffix" || k == "strings.CutSuffix") {
 					aligned = true
 				}
 			}
@@ -78,7 +78,7 @@ func runC48(c *Ctx) {
 		// raw uses of the zone as a string pattern
 		for _, call := range fn.Calls(true, func(call *ast.CallExpr) bool {
 			switch fn.CallKey(call) {
-			case "strings.HasSuffix", "strings.Contains", "strings.Index", "strings.LastIndex", "strings.HasPrefix", "strings.TrimSuffix", "strings.Split", "strings.SplitN", "github.com/miekg/dns.IsSubDomain":
+			case "strings.HasSuffix", "strings.Contains", "strings.Index", "strings.LastIndex", "strings.HasPrefix", "strings.TrimSuffix", "strings.CutSuffix", "strings.CutPrefix", "strings.Cut", "strings.Split", "strings.SplitN", "github.com/miekg/dns.IsSubDomain":
 				return true
 			}
 			return false
@@ -104,7 +104,7 @@ func runC48(c *Ctx) {
 				continue
 			}
 			nsite++
-			okSite := dotted && (k == "strings.HasSuffix" || k == "strings.TrimSuffix") || (uses && k == "github.com/miekg/dns.IsSubDomain")
+			okSite := dotted && (k == "strings.HasSuffix" || k == "strings.TrimSuffix" || k == "strings.CutSuffix") || (uses && k == "github.com/miekg/dns.IsSubDomain")
 			c.Ob("label-aligned", fmt.Sprintf("DNS.%s#%s(zone)", name, strings.TrimPrefix(k, "strings.")), call.Pos(), okSite, "a query name is matched against the zone on a label boundary (\".\"+zone suffix, equality or dns.IsSubDomain); a raw suffix/substring match treats fooZONE as inside ZONE and mis-cuts the label; found "+fn.Str(call))
 		}
 	}
@@ -114,8 +114,11 @@ func runC48(c *Ctx) {
 	for _, call := range at.Calls(false, func(call *ast.CallExpr) bool { return at.IsCall(call, "*.PrefixList") }) {
 		fs := at.FactsAt(call)
 		okGuard := fs.Has(func(fa *Fact) bool {
-			if fa.Kind != FTrue || !at.IsCall(fa.Call, "strings.HasSuffix", "github.com/miekg/dns.IsSubDomain") {
+			if fa.Kind != FTrue || !at.IsCall(fa.Call, "strings.HasSuffix", "strings.CutSuffix", "github.com/miekg/dns.IsSubDomain") {
 				return false
+			}
+			if at.IsCall(fa.Call, "strings.CutSuffix") && fa.Idx != 1 {
+				return false // only the "found" result says the suffix was there
 			}
 			al, _ := zoneAligned(at, fa.Call, zone)
 			return al
@@ -271,12 +274,21 @@ func runC48(c *Ctx) {
 		return ok && id.Name == "append" && types_ExprString(call.Args[0]) == "ra"
 	}) {
 		ok := at.FactsAt(call).Cmp(func(e, tag ast.Expr, truth bool, fa *Fact) bool {
-			be, ok := e.(*ast.BinaryExpr)
-			if !ok {
+			be, ok := ast.Unparen(e).(*ast.BinaryExpr)
+			if !ok || tag != nil {
 				return false
 			}
 			v, _ := at.ConstVal(be.Y)
-			return truth && be.Op == token.GTR && v == "0" && isLenOf(at, be.X, func(ast.Expr) bool { return true })
+			if v != "0" || !isLenOf(at, be.X, func(ast.Expr) bool { return true }) {
+				return false
+			}
+			switch be.Op {
+			case token.GTR, token.NEQ:
+				return truth
+			case token.EQL, token.LEQ:
+				return !truth
+			}
+			return false
 		})
 		c.Ob("txt-values", "DNS.answerTXT#only-non-empty-values", call.Pos(), ok, "only non-empty stored values become TXT records")
 	}
